@@ -58,6 +58,7 @@ type Verifier struct {
 	escaped          map[*Object]bool
 	contains         map[*Object][]Value
 	opaqueNames      map[string]bool
+	inlineNames      map[string]bool
 	snapObjs         map[string]*Object
 	allowPanic       bool
 	opaqueGlobals    map[*ssa.Global]*Object
